@@ -117,6 +117,20 @@ INDEX = {
  "C20-4": ("'found' flag hoisted out of the undeclared-token loop: whether a balance in an undeclared token is refused depends on map iteration order", "a balance in a token without TokenInfo next to declared tokens"),
 }
 
+# round 3 onwards: the author's agent.json (breaks / needs / place_as / run_args) beside the patch, reviewed before storing
+import glob
+AGENT = {}
+for ap in glob.glob("/tmp/seed-C*/*/agent.json"):
+    pid_, k_ = ap.split("/")[2][5:], ap.split("/")[3]
+    try:
+        a = json.load(open(ap))
+    except Exception as e:
+        print("bad agent.json", ap, e)
+        continue
+    if f"{pid_}-{k_}" not in INDEX:
+        INDEX[f"{pid_}-{k_}"] = (a["breaks"], a["needs"])
+        AGENT[f"{pid_}-{k_}"] = a
+
 CAUGHT = json.load(open("/verif/seeded/results.json")) if os.path.exists("/verif/seeded/results.json") else {}
 
 
@@ -177,6 +191,8 @@ def main():
                     p = l.split()
                     if len(p) > 3 and p[0] == pid and p[1] == k:
                         line = p
+        if line is None and mid in AGENT:
+            line = [pid, k, AGENT[mid]["place_as"]] + AGENT[mid]["run_args"].split()
         meta = {
             "id": mid, "property": pid, "breaks": breaks, "needs_to_manifest": needs,
             "patch": "patch.diff (git -C /repo apply /verif/seeded/%s/patch.diff; undo with git -C /repo checkout -- .)" % mid,
